@@ -49,7 +49,10 @@ pub fn accepted_by_macros(env: &Env, id: &str, items: &[(String, Vec<String>, St
             let vs: Vec<&str> = v.as_object().map(|o| o.values().filter_map(|x| x.as_str()).collect()).unwrap_or_default();
             let any_ok = vs.iter().any(|x| *x == "ok");
             let all_ok = vs.iter().all(|x| *x == "ok" || *x == "na");
-            res.insert(name.clone(), any_ok && all_ok);
+            // only derives that cannot run in-process (FromRepr): undecided here, see `undecided`
+            if any_ok || !all_ok {
+                res.insert(name.clone(), any_ok && all_ok);
+            }
         }
     }
     res
